@@ -58,6 +58,10 @@ def own_cases(tier, rng):
         for (M, N) in [(1, 1), (2, 3), (4, 4), (3, 7)]:
             cid = "bounds/%s/%dx%d" % (tk, M, N)
             cases.append(Case(cid, 'VF_CASE("%s", c07::bounds<%s,%d,%d>)' % (cid, TYPES[tk], M, N), dict(type=TYPES[tk], M=M, N=N), size=M * N))
+    for tk in ("f", "i", "d"):
+        for dims in [(5,), (2, 3), (2, 3, 2), (2, 3, 4, 5), (3, 2, 2, 3), (2, 2, 3, 2, 2), (1, 2, 1, 3, 2, 2)]:
+            cid = "bounds/%s/nd%s" % (tk, "x".join(map(str, dims)))
+            cases.append(Case(cid, 'VF_CASE("%s", c07::bounds_nd<%s,%s>)' % (cid, TYPES[tk], ",".join(map(str, dims))), dict(type=TYPES[tk], dims=list(dims)), size=len(dims)))
     return cases
 
 
